@@ -985,6 +985,10 @@ class SV:
     def __abs__(s):
         return SV(z3.If(s.t >= 0, s.t, -s.t), s.sz + 2)
 
+    def __bool__(s):
+        # truthiness of a number (`x or default`, `if x:`, filter(None, ...)) is a branch on x != 0
+        return bool(SB(s.t != 0))
+
     def _c(s, o, f):
         if _isnan(o):
             return False
